@@ -8,8 +8,12 @@ sys.path.insert(0, os.path.join(VERIF, 'mutants'))
 sys.path.insert(0, os.path.join(VERIF, 'analysis'))
 import mutants, controls
 env = dict(os.environ, CARGO_NET_OFFLINE='true', CARGO_TARGET_DIR='/tmp/mut-target')
-out = {}
+only = sys.argv[1:]
+mp = os.path.join(VERIF, 'mutants', 'MANIFEST.json')
+out = json.load(open(mp)) if only and os.path.exists(mp) else {}
 for mut in mutants.M:
+    if only and mut['id'] not in only:
+        continue
     src = os.path.join('/repo', mut['file'])
     text = open(src).read()
     if mut['old'] not in text:
@@ -18,6 +22,9 @@ for mut in mutants.M:
     d, dst = controls.scratch_copy('/repo')
     try:
         open(os.path.join(dst, mut['file']), 'w').write(text.replace(mut['old'], mut['new'], 1))
+        for f2, o2, n2 in mut.get('more', []):
+            t2 = open(os.path.join(dst, f2)).read()
+            open(os.path.join(dst, f2), 'w').write(t2.replace(o2, n2, 1))
         r = subprocess.run('cargo test --offline 2>&1', shell=True, cwd=dst, env=env, stdout=subprocess.PIPE, text=True)
         m = re.findall(r'test result: (\w+)\. (\d+) passed; (\d+) failed', r.stdout)
         failed = re.findall(r'^test (\S+) \.\.\. FAILED', r.stdout, re.M)
